@@ -1,7 +1,9 @@
 """Shared by the per-request properties C03 / C10 / C11 / C16: Serve traces validated by TraceServe.tla."""
 import json
 
-from vlib import Infra, read_ndjson
+import os
+
+from vlib import Infra, Crash, read_ndjson
 
 CORS_CFG = """SPECIFICATION Spec
 CONSTANTS
@@ -62,8 +64,22 @@ def run_serve(c, prop, shards, what, conform=False):
         summ = c.path("%s_%d.json" % (prop, k))
         # shards of one seed share the seed (they deal out the same configuration list)
         sd = c.seed * 1000 + (k // int(args[args.index("-nshards") + 1]) if "-nshards" in args else k)
-        c.run_driver(["serve", "-prop", prop, "-trace", trace, "-out", summ] + args, env={"VERIF_SEED": str(sd)})
-        s = json.load(open(summ))
+        try:
+            c.run_driver(["serve", "-prop", prop, "-trace", trace, "-out", summ] + args, env={"VERIF_SEED": str(sd)})
+            s = json.load(open(summ))
+        except Crash as e:
+            # the process died inside the code under test (a Go fatal error cannot be recovered): that is C17's business; what
+            # was recorded before is still judged (the trace is cut at its last complete line)
+            if c.pid == "C17":
+                raise
+            c.drift.append("the serve driver died inside the code under test (C17's business): %s" % str(e)[:300])
+            data = open(trace, "rb").read() if os.path.exists(trace) else b""
+            data = data[:data.rfind(b"\n") + 1]
+            if data.count(b"\n") < 10:
+                raise Infra("the serve driver died before recording anything: %s" % str(e)[:300])
+            with open(trace, "wb") as f:
+                f.write(data)
+            s = {"served": data.count(b'"ev":"Serve"'), "configs": data.count(b'"ev":"Config"'), "preflights": 1, "panics": 0, "rejected": 0, "samples": []}
         bad, res = c.validate_trace("TraceServe", SERVE_CFG % prop, trace, tag="TraceServe_%s_%d" % (prop, k))
         evs = read_ndjson(trace) if (bad or res.get("known")) else None
         if conform:
